@@ -246,9 +246,12 @@ func CSVProducer(opts ...CSVOpt) Producer {
 
 			pipe, _ := errgroup.WithContext(context.Background())
 			pipe.Go(func() error {
+				// a failure of WriteTo reaches the CSV reader as its read error, so that the reading side alone decides
+				// the outcome: when it stops first (e.g. on malformed input) and closes the pipe, the "closed pipe" error
+				// that WriteTo then gets must not compete with the parser's error.
 				_, err := origin.WriteTo(w)
-				_ = w.Close()
-				return err
+				_ = w.CloseWithError(err)
+				return nil
 			})
 
 			pipe.Go(func() error {
